@@ -397,6 +397,44 @@ pub fn run(ctx: &mut Ctx) {
         }
     }
 
+    // --- every written UTC offset (hours 0..30, minutes at and around 59/60/99), with and without a zone name, and
+    //     numbers whose integer / fraction / exponent digits run to any length ------------------------------------------
+    if ctx.shard == ctx.nshards.saturating_sub(1).min(1) && ctx.begin("offset-sweep", 0) {
+        let mut rng = ctx.case_rng("offset-sweep", 0);
+        for hh in 0..=30u32 {
+            for mm in [0u32, 1, 15, 30, 45, 59, 60, 61, 99] {
+                for sign in ['+', '-'] {
+                    ctx.eval("offset-sweep", crate::prng::mix(&[hh as u64, mm as u64, sign as u64]), true);
+                    for doc in [
+                        format!("2021-08-06T17:05:00{sign}{hh:02}:{mm:02} London"),
+                        format!("2021-08-06T17:05:00{sign}{hh:02}:{mm:02}"),
+                        format!("[2021-08-06T17:05:00.5{sign}{hh:02}:{mm:02} New_York,1]"),
+                        format!("2021-08-06T17:05:00{sign}{hh:02}:{mm:02} GMT{sign}{hh}"),
+                        format!("2021-08-06T17:05:00{sign}{hh:02}{mm:02} UTC"),
+                    ] {
+                        monitor(ctx, Entry::FromStr, doc.as_bytes(), "offset-sweep", &mut rng);
+                    }
+                    let j = format!("{{\"_kind\":\"dateTime\",\"val\":\"2021-08-06T17:05:00{sign}{hh:02}:{mm:02}\",\"tz\":\"London\"}}");
+                    monitor(ctx, Entry::JsonStr, j.as_bytes(), "offset-sweep", &mut rng);
+                }
+            }
+        }
+        for n in [1usize, 2, 9, 10, 11, 19, 20, 21, 39, 40, 308, 309, 310, 400, 1100, 5000] {
+            let run = "9".repeat(n);
+            let zeros = "0".repeat(n);
+            ctx.eval("digit-runs", n as u64, true);
+            for doc in [
+                format!("1e{run}"), format!("1e-{run}"), format!("1E+{run}kW"), format!("1e{zeros}1"), format!("{run}"), format!("-{run}.{run}"), format!("0.{zeros}1"), format!("{run}e-{run}"),
+                format!("1.{run}e{n}"), format!("C({run},{run})"), format!("C(0.{zeros}1,1)"), format!("{run}-01-01"), format!("2021-01-01T00:00:00.{run}Z"), format!("12:00:00.{run}"), format!("[1e{run},2]"),
+            ] {
+                monitor(ctx, Entry::FromStr, doc.as_bytes(), "digit-runs", &mut rng);
+            }
+            for j in [format!("{run}"), format!("1e{run}"), format!("{{\"_kind\":\"number\",\"val\":1e-{run}}}"), format!("0.{zeros}1"), format!("{{\"_kind\":\"coord\",\"lat\":{run},\"lng\":1}}")] {
+                monitor(ctx, Entry::JsonStr, j.as_bytes(), "digit-runs", &mut rng);
+            }
+        }
+    }
+
     // --- corpus slices: prefixes and mutants ---------------------------------------------------
     let corpus = corpus_slices();
     ctx.note("corpus_slices", json!(corpus.len()));
